@@ -318,7 +318,7 @@ def _block_kind(ctx: Ctx, f: Func, t: Term, depth: int = 0) -> str | None:
                 if g.cls is None and g.module.name.startswith("ropt.plugins.optimizer") and any(
                     x[0] == "attr" and x[2] == "linear_constraints" for x in ctx.X.closure(ctx.X.return_term(g))):
                     return "LIN"
-    if depth < 2:
+    if depth < 3:
         kinds = set()
         for s_ in subterms(t):
             if s_[0] == "param" and s_[1] == f.qualname and f.positional and s_[2] != f.positional[0]:
